@@ -293,11 +293,68 @@ func (a *c08an) reaches(fn *ssa.Function, name string, depth int, pred func(ssa.
 	return res
 }
 
+// c08FullDrainSite: NextAll, or a Next() that belongs to a drain loop: the call lies on a CFG
+// cycle that does not pass a WaitForItem call (the consumer's own for-loop does not make a
+// single Next() a drain), or its result is merged (phi) with the result of such a call (the
+// init statement of `for next := q.Next(); next != nil; next = q.Next()`).
 func c08FullDrainSite(ci ssa.CallInstruction) bool {
 	if c08IsQ(ci, "PriorityQueue", "NextAll") {
 		return true
 	}
-	return c08IsQ(ci, "PriorityQueue", "Next") && c08InLoop(ci.(ssa.Instruction))
+	if !c08IsQ(ci, "PriorityQueue", "Next") {
+		return false
+	}
+	if c08InDrainCycle(ci.(ssa.Instruction)) {
+		return true
+	}
+	v := ci.Value()
+	if v == nil || v.Referrers() == nil {
+		return false
+	}
+	for _, r := range *v.Referrers() {
+		ph, ok := r.(*ssa.Phi)
+		if !ok {
+			continue
+		}
+		for _, e := range ph.Edges {
+			if other, ok := e.(*ssa.Call); ok && other != v && c08IsQ(other, "PriorityQueue", "Next") && c08InDrainCycle(other) {
+				return true
+			}
+		}
+	}
+	return false
+}
+
+func c08BlockWaits(b *ssa.BasicBlock) bool {
+	for _, in := range b.Instrs {
+		if ci, ok := in.(ssa.CallInstruction); ok && c08IsQ(ci, "SimpleQueue", "WaitForItem") {
+			return true
+		}
+	}
+	return false
+}
+
+// c08InDrainCycle: the block of in lies on a cycle none of whose blocks calls WaitForItem.
+func c08InDrainCycle(in ssa.Instruction) bool {
+	b := in.Block()
+	if c08BlockWaits(b) {
+		return false
+	}
+	seen := map[*ssa.BasicBlock]bool{}
+	stack := append([]*ssa.BasicBlock(nil), b.Succs...)
+	for len(stack) > 0 {
+		x := stack[len(stack)-1]
+		stack = stack[:len(stack)-1]
+		if seen[x] || c08BlockWaits(x) {
+			continue
+		}
+		seen[x] = true
+		if x == b {
+			return true
+		}
+		stack = append(stack, x.Succs...)
+	}
+	return false
 }
 
 func (a *c08an) rootCallee(ci ssa.CallInstruction) *ssa.Function {
@@ -444,6 +501,29 @@ func (a *c08an) conditionalDispositionEdges(fn *ssa.Function, item ssa.Value) ma
 					a.c.analysed(f)
 					for _, e := range edgesOfVerdict(rv).Accept {
 						out[e] = true
+					}
+					// `cond && f(..)` evaluated as a value: phi [false, result]
+					if rv.Referrers() != nil {
+						for _, r := range *rv.Referrers() {
+							ph, ok := r.(*ssa.Phi)
+							if !ok {
+								continue
+							}
+							onlyFalse := true
+							for _, e := range ph.Edges {
+								if e == rv {
+									continue
+								}
+								if b, ok := constBool(e); !ok || b {
+									onlyFalse = false
+								}
+							}
+							if onlyFalse {
+								for _, e := range edgesOfVerdict(ph).Accept {
+									out[e] = true
+								}
+							}
+						}
 					}
 				}
 			}
